@@ -769,6 +769,15 @@ class SymZ:
         return sbytes.int_to_bytes(self, length, byteorder, signed)
 
     def bit_length(self):
+        # decided by case split when the value is known to lie in a small range (bounded unrollings); unbounded otherwise
+        if self._is_const():
+            return abs(self._cval()).bit_length()
+        if self.lo is not None and self.hi is not None and self.lo >= 0 and self.hi < (1 << 16) and not _is_bv():
+            ctx = cur()
+            for i in range(0, self.hi.bit_length() + 1):
+                if ctx.branch(self.t < (1 << i)):
+                    return i
+            return self.hi.bit_length()
         raise Unsupported("bit_length of a symbolic integer")
 
 
